@@ -496,6 +496,30 @@ def load_known():
     return {"known": [], "fixed": []}
 
 
+def coqchk_gate(pid):
+    """thorough tier: re-check the property's compiled theorems and everything they depend on with the independent checker coqchk
+    and compare the axioms it lists with the allow-list.  Returns (ok, detail)"""
+    rc, out, dt = sh(["coqchk", "-silent", "-o", "-Q", "theories", "MV", f"MV.Properties.{pid}"], cwd=COQ, timeout=3000)
+    allowed = {"Coq.Logic.FunctionalExtensionality.functional_extensionality_dep", "Coq.Reals.ClassicalDedekindReals.sig_not_dec",
+               "Coq.Reals.ClassicalDedekindReals.sig_forall_dec", "Coq.Logic.Classical_Prop.classic"}
+    problems = []
+    if rc != 0:
+        problems.append("coqchk exit status %d: %s" % (rc, out[-300:].replace("\n", " ")))
+    axioms, sect = [], None
+    for ln in out.splitlines():
+        t = ln.strip()
+        if t.startswith("* "):
+            sect = t
+            if ("type-in-type" in t or "unsafe" in t or "positivity" in t) and "<none>" not in t:
+                problems.append("coqchk: " + t)
+        elif sect and sect.startswith("* Axioms") and t and not t.startswith("*"):
+            axioms.append(t)
+    extra = [a for a in axioms if a not in allowed and a != "<none>"]
+    if extra:
+        problems.append("coqchk lists axioms outside the allow-list: " + ", ".join(extra))
+    return (not problems), {"axioms": axioms, "seconds": round(dt, 1), "problems": problems}
+
+
 PENDING = []      # (signature, what, replay) raised by shared infrastructure (e.g. missing model output), merged in finish()
 
 
